@@ -304,3 +304,125 @@ func reachesFunc(c *Ctx, f, target *ssa.Function, seen map[*ssa.Function]bool) b
 	})
 	return found
 }
+
+// ---------------------------------------------------------------- ENC-6
+
+func init() {
+	register(&Rule{
+		ID: "ENC-6",
+		Doc: "Offset recovery from capacities agrees between the provider and the consumers: where a batch-building function recovers the position of a caller-supplied slice inside segment.buf " +
+			"as `X - cap(param)` and hands it to mutateEx, X is cap(segment.buf) (a slice of buf that runs to the end of buf's capacity has cap = cap(buf) - offset; len(buf) moves with every later Alloc), " +
+			"and every slice of segment.buf that a segment method returns to the caller is a two-index slice (a capacity-limited three-index slice no longer encodes its offset). " +
+			"Conditional on the idiom: an implementation that does not recover offsets from capacities has no obligation here (positive control: mutants enc6-*). Decides the agreement, not the arithmetic of the offsets.",
+		Props: []string{"C19"},
+		Floor: 0,
+		Run:   ruleEnc6,
+	})
+}
+
+func isBuiltinCall(v ssa.Value, name string) (ssa.Value, bool) {
+	call, ok := v.(*ssa.Call)
+	if !ok {
+		return nil, false
+	}
+	b, isB := call.Call.Value.(*ssa.Builtin)
+	if !isB || b.Name() != name || len(call.Call.Args) != 1 {
+		return nil, false
+	}
+	return call.Call.Args[0], true
+}
+
+func ruleEnc6(c *Ctx) []*Ob {
+	o := newObs(c, "ENC-6")
+	mutateEx := c.Fn("(*segment).mutateEx")
+	fBuf := c.Field("segment", "buf")
+	consumers := 0
+	for _, f := range c.Funcs {
+		fn := c.fname(f)
+		for _, k := range callsToFn(f, mutateEx) {
+			// arguments: receiver, operation, keyStart, keyLen, valLen
+			for ai, arg := range k.Call.Args {
+				if ai == 0 {
+					continue
+				}
+				var visit func(v ssa.Value, d int)
+				seen := map[ssa.Value]bool{}
+				visit = func(v ssa.Value, d int) {
+					if seen[v] || d > 6 {
+						return
+					}
+					seen[v] = true
+					for _, og := range origins(v) {
+						b, isB := og.(*ssa.BinOp)
+						if !isB {
+							continue
+						}
+						if b.Op == token.SUB {
+							if p, isCap := isBuiltinCall(b.Y, "cap"); isCap {
+								if _, isParam := p.(*ssa.Parameter); isParam {
+									consumers++
+									x, xIsCap := isBuiltinCall(b.X, "cap")
+									ok := false
+									if xIsCap {
+										if fv, _ := loadedField(x); fv == fBuf {
+											ok = true
+										}
+									}
+									why := "the offset is cap(segment.buf) - cap(" + p.Name() + ")"
+									if !ok {
+										why = "the position handed to mutateEx is " + accessPath(b.X) + " - cap(" + p.Name() + "), not cap(segment.buf) - cap(" + p.Name() + "): " +
+											"only the capacity of buf is a fixed reference (its length moves with every Alloc that follows the key's), so an entry whose value was allocated after its key is recorded at the wrong offset"
+									}
+									o.add(fn, "offset of "+p.Name()+" recovered from its capacity", c.instrPos(b), ok, why)
+								}
+							}
+						}
+						visit(b.X, d+1)
+						visit(b.Y, d+1)
+					}
+				}
+				visit(arg, 0)
+			}
+		}
+	}
+	if consumers == 0 {
+		return o.list // the idiom is not used: nothing to agree on
+	}
+	// providers: methods of segment returning a slice of buf to the caller
+	for _, f := range methodsOf(c, "segment") {
+		fn := c.fname(f)
+		for _, b := range f.Blocks {
+			for _, i := range b.Instrs {
+				r, isR := i.(*ssa.Return)
+				if !isR {
+					continue
+				}
+				for _, res := range r.Results {
+					if _, isSl := res.Type().Underlying().(*types.Slice); !isSl {
+						continue
+					}
+					for _, og := range origins(res) {
+						sl, isS := og.(*ssa.Slice)
+						if !isS {
+							continue
+						}
+						if fv, _ := loadedField(sl.X); fv != fBuf {
+							continue
+						}
+						if f.Object() == nil || !f.Object().Exported() || f.Name() != "Alloc" {
+							// only slices handed out for later Alloc* calls matter: the Alloc method (SegmentMutator/Batch API)
+							continue
+						}
+						ok := sl.Max == nil
+						why := "the slice handed out runs to the end of buf's capacity: cap(result) = cap(buf) - offset"
+						if !ok {
+							why = "the slice handed out has its capacity limited (three-index slice): cap(result) no longer encodes the offset that AllocSet/AllocDel/AllocMerge recover from it"
+						}
+						o.add(fn, "slice of segment.buf returned to the caller", c.instrPos(sl), ok, why)
+					}
+				}
+			}
+		}
+	}
+	return o.list
+}
